@@ -439,6 +439,7 @@ def mon_c16(sc, prof, pairs):
     kinds = kinds_of(sc.shape)
     prev = None
     wrote = False
+    after_fault = False
     for i, s in pairs:
         if i["step"] == "end":
             if i.get("double_drop") != "false" or i.get("leak") != "false":
@@ -451,9 +452,15 @@ def mon_c16(sc, prof, pairs):
             out.append(Failure(sc, prof, i["step"], f"{line}: the process aborted ({i.get('cause', '?')}): the panic of the user code could not be caught "
                                f"(a second panic while the half-built / half-updated container was being dropped)", f"C16:{op}:abort", {"I": i["raw"]}))
             break
+        faulty = ("panic=" in line) or (int(i["step"]) > 0 and sc.lines[int(i["step"]) - 1].split()[0] in ("clonefuse", "cmpfuse"))
+        # "can be used normally": once a panic of user code was caught, the operations that follow (none of which can
+        # panic on a coherent container: len, push, pop, retain, sorts with callbacks that do not panic) must not panic
+        if after_fault and not faulty and op not in ("clonefuse", "cmpfuse") and i["status"] == "panic":
+            out.append(Failure(sc, prof, i["step"], f"{line}: panics after an earlier panic of user code was caught (std: {s.get('status')})", f"C16:{op}:after-fault", {"I": i["raw"], "S": s["raw"]}))
+            break
+        if faulty and i["status"] == "panic": after_fault = True
         if i.get("regs", "~") == "~": continue
         regs = parse_regs(i["regs"])
-        faulty = ("panic=" in line) or (int(i["step"]) > 0 and sc.lines[int(i["step"]) - 1].split()[0] in ("clonefuse", "cmpfuse"))
         if not lockstep_ok(regs):
             out.append(Failure(sc, prof, i["step"], f"{line}: field arrays out of lockstep: {i['regs']}", f"C16:{op}:lockstep", {"I": i["raw"]}))
             break
